@@ -24,8 +24,22 @@ Ltac split_if :=
       | _ => destruct c eqn:?
       end
   end.
+(* issmall (utility.h) is translated and inlined at its call sites: the
+   regenerated test is  fabs(d) < 2.0 * epsilon  with the two constants of the
+   source.  These two lemmas identify it with [issmall] / [two_eps] = 2^-51 of
+   CxxMini.v, in which the specifications are stated; if the tolerance or the
+   comparison of utility.h changes they no longer apply and ife_run / ifz_run
+   (hence C13_ife_branch, C13_ifz_branch, ...) stop checking. *)
+Lemma two_eps_regen :
+  F64.mul (F64.of_bits 4611686018427387904) (F64.of_bits 4372995238176751616) = two_eps.
+Proof. apply B2SF_inj. vm_compute. reflexivity. Qed.
+Lemma issmall_regen x :
+  F64.ltb (F64.abs x) (F64.mul (F64.of_bits 4611686018427387904) (F64.of_bits 4372995238176751616)) = issmall x.
+Proof. rewrite two_eps_regen. reflexivity. Qed.
+
 Ltac body :=
-  intros; unfold run_body, fetched_body, run_body_p, run_body_s; repeat (crunch; split_if); crunch; try reflexivity.
+  intros; unfold run_body, fetched_body, run_body_p, run_body_s;
+  repeat (crunch; rewrite ?issmall_regen; split_if); crunch; rewrite ?issmall_regen; try reflexivity.
 
 (* ================================================================== *)
 (* 1. what each translated body computes, for ALL argument values       *)
